@@ -38,7 +38,10 @@ def grammar(rng, n3):
               ('un', 'not', ('bin', 'or', USE, AB)), ('un', 'not', ('bin', 'or', AB, USEA)), ('bin', 'implies', USE, AB),
               ('bin', 'and', ('bin', 'and', USE, B), USEA), ('bin', 'or', USE, AB), ('bin', 'and', B, AB),
               ('bin', 'and', IDXI, AB), ('bin', 'and', IDXA, USE), ('bin', 'and', IDXI, IDXA),
-              ('bin', 'and', USE, USELT), ('bin', 'and', USELT, USE), ('bin', 'or', USE, USELT), ('bin', 'and', ('bin', 'and', USE, USELT), B)]
+              ('bin', 'and', USE, USELT), ('bin', 'and', USELT, USE), ('bin', 'or', USE, USELT), ('bin', 'and', ('bin', 'and', USE, USELT), B),
+              # negated connectives other than `or` in the body (only `not (p or q)` may be rewritten to a conjunction and split)
+              ('un', 'not', ('bin', 'implies', USE, AB)), ('un', 'not', ('bin', 'implies', AB, USE)), ('un', 'not', ('bin', 'implies', USE, USELT)),
+              ('un', 'not', ('bin', 'and', USE, AB)), ('un', 'not', ('bin', 'iff', USE, AB))]
     quants = [('quant', q, 'i', d, body) for q in ('all', 'some') for d in (XS, AXS) for body in bodies if not (body == ('bin', 'and', B, AB))]
     L1 = [('un', 'not', a) for a in atoms] + [('bin', op, a, b) for op in ('and', 'or', 'implies', 'iff') for a in atoms for b in atoms] + quants
     L2 = [('un', 'not', a) for a in L1] + [('bin', 'and', a, b) for a in L1 for b in atoms] + [('bin', 'and', a, b) for a in atoms for b in L1]
